@@ -273,8 +273,38 @@ func r192(c *Ctx) {
 	c.ob(rule, "log-closure/custom-headers-from-request-and-writer", logCl.Pos(), okH, true, fmt.Sprintf("configured request headers must be read from the request, response headers from the counting writer's header map: %v", srcs))
 	c.ob(rule, "retrieveCustomHeaders/looks-up-every-configured-name", logCl.Pos(), okIdx && len(srcs) >= 2, true, "")
 	nt := c.fn("NewTarget")
-	canon := c.methodIn(c.server, "TargetOptions", "canonicalizeLogHeaders")
-	c.ob(rule, "NewTarget/canonicalises-header-names", nt.Pos(), len(callsTo(nt, canon)) == 1, true, "header maps are keyed by canonical names, so the configured names must be canonicalised once at construction")
+	// (the helper of the reference tree, canonicalizeLogHeaders, is always expanded into NewTarget): for both lists, every
+	// element is replaced in place by its canonical form
+	for _, fn := range []string{"LogRequestHeaders", "LogResponseHeaders"} {
+		lf := c.field("TargetOptions", fn)
+		found := false
+		for _, b := range nt.Blocks {
+			for _, in := range b.Instrs {
+				st, ok := in.(*ssa.Store)
+				if !ok {
+					continue
+				}
+				ia, ok := st.Addr.(*ssa.IndexAddr)
+				if !ok || !isLoadOfField(resolve(ia.X), lf) {
+					continue
+				}
+				call, ok := st.Val.(*ssa.Call)
+				if !ok || calleeName(call.Common()) != "net/http.CanonicalHeaderKey" {
+					continue
+				}
+				src, full := fullRangeElem(call.Call.Args[0])
+				if !full || !isLoadOfField(resolve(src), lf) {
+					continue
+				}
+				if el, ok := call.Call.Args[0].(*ssa.UnOp); ok {
+					if eia, ok := el.X.(*ssa.IndexAddr); ok && eia.Index == ia.Index {
+						found = true
+					}
+				}
+			}
+		}
+		c.ob(rule, "NewTarget/canonicalises-"+fn, nt.Pos(), found, true, "header maps are keyed by canonical names, so every configured name must be replaced by its canonical form at construction")
+	}
 }
 
 func r193(c *Ctx) {
